@@ -126,6 +126,16 @@ impl ZoneStore for ZoneApex {
 
     fn read(self: Arc<Self>) -> Box<dyn ReadableZone> {
         let (version, marker) = self.versions().read().current().clone();
+        // Hook: take the version again with the event emitted while the
+        // read lock is still held; this value is the one the reader uses.
+        #[cfg(domain_verif)]
+        let (version, marker) = {
+            let _ = (&version, &marker);
+            let guard = self.versions().read();
+            let current = guard.current().clone();
+            crate::verif_trace::emit("ReaderAcquire", current.0.verif_int(), 0);
+            current
+        };
         Box::new(ReadZone::new(self, version, marker))
     }
 
